@@ -180,3 +180,17 @@ Definition path_string (v : list bytes) (k : option bytes) : bytes :=
 Definition path_name (n : bytes) : Prop := n <> [] /\ ~ In c_slash n /\ ~ In c_lt n.
 Definition path_key (k : bytes) : Prop :=
   ~ In c_slash k /\ ~ In c_lt k /\ (exists c r, k = c :: r /\ c <> c_gt) /\ (exists r c, k = r ++ [c] /\ c <> c_gt).
+
+(* ------------------------------------------------------------------------------------------- *)
+(* the same documents as trees: any nesting; flattening gives a well-nested piece list *)
+Inductive node :=
+| NText (l : list atom)
+| NDomain (name ws1 ws2 : bytes) (body : list node)       (* <name ws1> body </name ws2> *)
+| NEmpty (name ws : bytes).                               (* <name ws/> *)
+Fixpoint flatten (n : node) : list piece :=
+  match n with
+  | NText l => [PText l]
+  | NDomain nm w1 w2 body => POpen nm w1 :: flat_map flatten body ++ [PClose nm w2]
+  | NEmpty nm w => [PEmpty nm w]
+  end.
+Definition flatten_doc (d : list node) : list piece := flat_map flatten d.
